@@ -3,7 +3,8 @@
      [e |-> "begin", t]
      [e |-> "pub", t, n, ch (0 video, 1 video control, 2 audio, 3 audio control), rtphash, mediahash, key]   packet n was published
      [e |-> "client", t, c (name; "-late" = attached in mid stream), proto ("rtp" / "rtp-udp": whole packets are compared, "flv": the media
-            payload inside the tag), left_at (last packet published while the client was attached), items: <<[n, kind, hash]>>]
+            payload inside the tag), left_at (last packet published while the client was attached), items: <<[n, kind, hash]>>,
+            bad (WebSocket messages that were neither one complete frame nor one complete response)]
    The statement: packets published after the client attached arrive in the published order, byte-identical, each at
    most once, and - nothing being dropped for backlog here - all of them; other clients attaching or leaving
    (one leaves after left_at) make no difference. *)
@@ -13,8 +14,9 @@ VARIABLES l, pubs
 Init == l = 0 /\ pubs = <<>>
 Bad(e, why) == PrintT(<<"@BAD", ToJson([line |-> l', t |-> e.t, why |-> why, c |-> e.c, proto |-> e.proto, left_at |-> e.left_at, nitems |-> Len(e.items)])>>)
 Ok(cond, e, why) == IF cond THEN TRUE ELSE Bad(e, why)
-Rtp(proto) == proto \in {"rtp", "rtp-udp"}
-Relevant(proto, p) == Rtp(proto) \/ p.ch \in {0, 2}
+Rtp(proto) == proto \in {"rtp", "rtp-udp", "rtp-video"}
+\* "rtp-video": a player that set up the video track only is owed the video channel and its control channel
+Relevant(proto, p) == IF proto = "rtp-video" THEN p.ch \in {0, 1} ELSE Rtp(proto) \/ p.ch \in {0, 2}
 KindOf(proto, p) == IF Rtp(proto) THEN CASE p.ch = 0 -> "ch0" [] p.ch = 1 -> "ch1" [] p.ch = 2 -> "ch2" [] OTHER -> "ch3"
                     ELSE IF p.ch = 0 THEN "video" ELSE "audio"
 HashOf(proto, p) == IF Rtp(proto) THEN p.rtphash ELSE p.mediahash
@@ -31,6 +33,9 @@ Next ==
                 first == IF it = <<>> THEN 0 ELSE CHOOSE x \in ns : \A y \in ns : x <= y IN
             /\ pubs' = pubs
             /\ Ok(it # <<>>, e, "C01:transport-client-received-nothing")
+            \* C13: on the WebSocket transports every message is exactly one complete response or interleaved frame
+            /\ Ok(e.bad = 0, e, "C13:websocket-message-is-not-one-complete-frame-or-response")
+            /\ Ok(\A i \in 1..Len(it) : it[i].n \in 1..Len(pubs) => Relevant(e.proto, pubs[it[i].n]), e, "C01:transport-packet-of-a-channel-that-was-not-set-up")
             /\ Ok(\A i \in 1..Len(it) : it[i].n \in 1..Len(pubs), e, "C01:transport-client-received-something-never-published")
             \* one connection: one order; UDP: four sockets read independently, so the order is per socket
             /\ Ok(\A i, j \in 1..Len(it) : (i < j /\ (e.proto # "rtp-udp" \/ it[i].kind = it[j].kind)) => it[i].n < it[j].n, e, "C01:transport-order-or-duplicate")
